@@ -48,13 +48,41 @@ func verifVS(s string) *vsapi.VirtualServer {
 	return vs
 }
 
+// verifSeen: what the API server held for each Certificate when the lister cache was last refreshed (per clientset).
+var verifSeen = map[*cmfake.Clientset]map[string]*cmapi.Certificate{}
+
+// verifMirror brings the lister cache up to date the way an informer does: an object in the cache is replaced only when the API
+// server's copy has changed since the last refresh (a watch event); an object whose stored copy did not change — for instance
+// because a write failed — stays in the cache as it is, including anything the code under test did to it.
 func verifMirror(cl *cmfake.Clientset, idx cache.Indexer) {
-	for _, o := range idx.List() {
-		_ = idx.Delete(o)
+	seen := verifSeen[cl]
+	if seen == nil {
+		seen = map[string]*cmapi.Certificate{}
+		verifSeen[cl] = seen
 	}
 	l, _ := cl.CertmanagerV1().Certificates("d").List(context.Background(), metav1.ListOptions{})
+	present := map[string]bool{}
 	for i := range l.Items {
-		_ = idx.Add(&l.Items[i])
+		it := &l.Items[i]
+		key := it.Namespace + "/" + it.Name
+		present[key] = true
+		if old, ok := seen[key]; ok && reflect.DeepEqual(old, it) {
+			continue
+		}
+		seen[key] = it.DeepCopy()
+		if _, exists, _ := idx.GetByKey(key); exists {
+			_ = idx.Update(it.DeepCopy())
+		} else {
+			_ = idx.Add(it.DeepCopy())
+		}
+	}
+	for _, o := range idx.List() {
+		c := o.(*cmapi.Certificate)
+		key := c.Namespace + "/" + c.Name
+		if !present[key] {
+			_ = idx.Delete(o)
+			delete(seen, key)
+		}
 	}
 }
 
